@@ -7,6 +7,38 @@ import os
 
 
 def prove(tier, seed):
+    from vt.pyvc.termproofs import merge
+
+    return merge(prove_rng_frames(tier, seed), prove_measurement_terms(tier, seed))
+
+
+def prove_measurement_terms(tier, seed):
+    """E1-term: pretty_good_measurement, pretty_bad_measurement (three states; callee by parameter name) and the single-operator form of measure are
+    their documented formulas over uninterpreted linear algebra"""
+    import importlib
+
+    from vt.pyvc.termproofs import prove_terms
+
+    muts = [
+        ("pretty_good_measurement", "p_var_sqrt @ (probs[i] * states[i]) @ p_var_sqrt", "p_var_sqrt @ states[i] @ p_var_sqrt"),
+        ("pretty_bad_measurement", "1 / (n - 1) * (np.identity(dim) - pbm[i])", "1 / n * (np.identity(dim) - pbm[i])"),
+        ("measure", "post_state = result / prob\n        else:\n            post_state = np.zeros_like(state)\n        return (prob", "post_state = result / np.linalg.norm(result)\n        else:\n            post_state = np.zeros_like(state)\n        return (prob"),
+    ]
+    out = prove_terms(["pretty_good_measurement", "pretty_bad_measurement", "measure"], muts, "thorough", "c19t")
+    mod = importlib.import_module("props.C19")
+    gen = getattr(mod, "_cases_before_frames", None) or mod.cases
+    key = {"pretty_good_measurement": "pgm.", "pretty_bad_measurement": "pbm.", "measure": "measure."}
+    cache = {}
+    for x in out["records"]:
+        if x["status"] != "discharged":
+            fn = x["function"]
+            if fn not in cache:
+                cache[fn] = [dict(c, function=fn) for c in gen("quick", seed) if c["clause"].startswith(key.get(fn, fn))][:40]
+            x["replay"] = cache[fn]
+    return out
+
+
+def prove_rng_frames(tier, seed):
     from vt import extract
     from vt.common import REPO
     from vt.frame import Index, frame_obligations, rng_obligations
